@@ -309,10 +309,13 @@ PrologFails(lang, d, t, lower) == IF lang = "en" THEN PlEn(d, t, lower) ELSE PlJ
 (* ---------------- trees returned by the treebank readers (C08 C12b C15 C20) ---------------- *)
 (* d: the derivation that was printed (binary nodes carry gr = the grammar's results for their children, *)
 (* as returned by the real rule function); r: projection of the tree the reader returned.               *)
-(* the word a reader returns, in the spelling the format can carry: AUTO keeps the escaped spelling; the PTB and
-   Japanese formats cannot distinguish a bracket from its escape, so words are compared up to that escape *)
-ReadWord(f, w) == CASE f = "auto" -> Denorm(w) [] f \in {"ptb", "ja"} -> Norm(w) [] OTHER -> w
-ReadWordOf(f, rw) == IF f \in {"ptb", "ja"} THEN Norm(rw) ELSE rw
+(* the word a reader returns: AUTO keeps the escaped spelling.  The PTB and Japanese formats cannot tell a word that *is*
+   an escape string (-LRB- ...) from the bracket it escapes, so for such a word either spelling is accepted; every other
+   word - in particular a token that is itself a bracket - has to come back exactly *)
+Escapes == {LRB, RRB, LCB, RCB, LSB, RSB}
+ReadWordOk(f, w, rw) == CASE f = "auto" -> rw = Denorm(w)
+                          [] f \in {"ptb", "ja"} -> IF w \in Escapes THEN rw \in {w, Norm(w)} ELSE rw = w
+                          [] OTHER -> rw = w
 HasHeadField(f) == f \in {"auto"}      \* xml, jigg_xml, ptb and nltk trees have no head field: the head comes from the rule
 Deriving(d) == SelectSeq(d.gr, LAMBDA g : g.c = d.cat)
 (* what the properties demand of one node, by property *)
@@ -321,7 +324,7 @@ ReadFails(f, d, r) ==
   IF ~(d.k = r.k /\ Len(d.kids) = Len(r.kids)) THEN {"R.shape"}
   ELSE (IF r.cat = d.cat THEN {} ELSE {"R.cats"})
     \cup (IF d.k = "L" THEN
-            (IF ReadWordOf(f, AttrCP(r.tok, IF f \in {"jigg_xml", "ja"} /\ ~HasAttr(r.tok, "word") THEN "surf" ELSE "word")) = ReadWord(f, AttrCP(d.tok, "word"))
+            (IF ReadWordOk(f, AttrCP(d.tok, "word"), AttrCP(r.tok, IF f \in {"jigg_xml", "ja"} /\ ~HasAttr(r.tok, "word") THEN "surf" ELSE "word"))
              THEN {} ELSE {"R.words"})
             \cup (CASE f = "auto" -> (IF AttrV(r.tok, "pos", "<absent>") = AttrV(d.tok, "pos", "POS") THEN {} ELSE {"R.pos"})
                     [] f = "xml" -> (IF \A key \in {"lemma", "pos", "entity", "chunk"} : AttrV(r.tok, key, "<absent>") = AttrV(d.tok, key, "<absent>")
